@@ -170,6 +170,12 @@ func (c LongCodec) Omit(p unsafe.Pointer) bool {
 func (c LongCodec) Write(w *avro.WriteBuf, p unsafe.Pointer) {
 	t := *(*time.Time)(p)
 	l := t.UnixMicro()
+	switch c.mult {
+	case 1:
+		l = t.UnixNano()
+	case 1e6:
+		l = t.UnixMilli()
+	}
 
 	c.Int64Codec.Write(w, unsafe.Pointer(&l))
 }
